@@ -95,6 +95,12 @@ CLAIMS = {
             "the scroll count and the return value are exactly what does not fit, and the cursor cell; every cursor report the "
             "harness sends is cross-checked against the reference terminal.",
             TRUST + "Rows are at most as wide as the terminal.", "5/C07"),
+    "C18": ("TLA+ spec of the cursor report parser and of the vertical-diff bookkeeping (CursorQuery.tla): TLC design check "
+            "(MC_VDiff: conservation over all movements with a nested call), TLC trace validation of real calls on scripted streams",
+            "get_cursor_position is run on scripted input (every short string of preceding bytes, 7/8-bit reports, trailing "
+            "input, OSError faults at chosen reads, with/without callback); get_cursor_vertical_diff for every small "
+            "(top_usable_row, last row, reported rows) with a nested call injected during a query; TLC judges each recorded call.",
+            TRUST + "Preceding input that itself contains a complete report is excluded (inherent ambiguity).", "5/C18"),
 }
 
 NOT_BUILT = "check not built yet at this commit (planned with the same TLA+ technique, see DESIGN.md section 5)"
